@@ -295,7 +295,10 @@ Qed.
 Lemma membership_false_incl P old new :
   membership_changed P old new = false -> incl (names P new) (names P old).
 Proof.
-  unfold membership_changed. destruct (negb (Nat.eqb (length old) (length new))); [discriminate|].
+  destruct (fix_ms P) eqn:Hms.
+  { intros H. apply (CompositeC11.membership_multiset P old new Hms) in H. intros n Hn.
+    eapply Permutation.Permutation_in; [apply Permutation.Permutation_sym; exact H|exact Hn]. }
+  unfold membership_changed. rewrite Hms. destruct (negb (Nat.eqb (length old) (length new))); [discriminate|].
   destruct (existsb (fun e => negb (mem_N (name_of P (fst e)) (names P old))) new) eqn:E; [discriminate|]. intros _.
   intros n Hn. apply names_in in Hn as (x & Hx & <-).
   unfold ids in Hx. apply in_map_iff in Hx as (e & <- & He).
